@@ -77,7 +77,7 @@ class CoreGen:
         ch = self.ch
         if d <= 0:
             return self.atom(env)
-        opts = [(24, 'bin'), (8, 'atom'), (3, 'neg'), (3, 'fabs'), (3, 'sqrt'), (3, 'fma'), (6, 'if'), (12, 'let'), (9, 'ann')]
+        opts = [(24, 'bin'), (8, 'atom'), (3, 'neg'), (3, 'fabs'), (3, 'sqrt'), (3, 'fma'), (6, 'if'), (12, 'let'), (9, 'ann'), (8, 'scoped')]
         if loops:
             opts += [(12, 'while'), (12, 'for')]
         k = ch.weighted(opts)
@@ -96,6 +96,35 @@ class CoreGen:
         if k == 'if':
             self.features.add('if')
             return f'(if {self.cond(env, d)} {self.expr(env, d - 1, loops)} {self.expr(env, d - 1, loops)})'
+        if k == 'scoped':
+            # a PARTIAL annotation in a statement-position sub-expression (if arm, let body, loop update / result)
+            # under an enclosing annotation: the inner one must inherit what it does not name
+            outer = f':precision {ch.choice([p for p in PRECS if p != "binary64"])}'
+            if ch.bool(0.6):
+                outer += f' :round {ch.choice(sorted(ROUNDS))}'
+
+            def part(e):
+                if ch.bool(0.7):
+                    pr = f':round {ch.choice(sorted(ROUNDS))}'
+                else:
+                    pr = f':precision {ch.choice(PRECS)}'
+                return f'(! {pr} ({ch.choice(["/", "/", "*"])} {e} {ch.choice(["3", "7", "0.3", "0.1"])}))'
+            form = ch.choice(['if', 'if', 'let', 'while', 'for'])
+            self.features.add('partial-annotation')
+            self.features.add('scoped-partial:' + form)
+            a, b = self.expr(env, d - 1), self.expr(env, d - 1)
+            if form == 'if':
+                inner = f'(if {self.cond(env, 1)} {part(a)} (+ {part(b)} {self.atom(env)}))'
+            elif form == 'let':
+                t = self.fresh('t')
+                inner = f'(let ([{t} (/ {a} 3)]) (if (< {t} {self.atom(env)}) {part(t)} {part(b)}))'
+            elif form == 'while':
+                kv, av = self.fresh('k'), self.fresh('a')
+                inner = f'(while (> {kv} 0) ([{kv} {ch.int(1, 2)} (- {kv} 1)] [{av} {a} {part(av)}]) (+ {av} {part(b)}))'
+            else:
+                iv, av = self.fresh('i'), self.fresh('a')
+                inner = f'(for ([{iv} {ch.int(1, 2)}]) ([{av} {a} {part(f"(+ {av} {iv})")}]) (if (< {av} 0) {part(av)} {part(b)}))'
+            return f'(! {outer} {inner})'
         if k == 'ann':
             if ch.bool(0.6):
                 # an inexact operation directly under the annotation, so the properties in force are observable
